@@ -1,3 +1,4 @@
 //! Positive (and negative) controls for the MIR rules. Never executed: only type-checked and analysed.
 #![allow(dead_code, unused)]
 pub mod c16;
+pub mod c17;
